@@ -20,7 +20,8 @@ VARY_ARGFORM = True  # integer call arguments also arrive as numpy integer scala
 GUARD_KERNELS = True
 SHRINK_LISTS = ("ops", "faults", "ranges", ("files", "nsamps"))
 SHRINK_MIN = {"nchans": 2, "nbits": 1, "gulp": 1}
-SHRINK_SIMPLE = {"write_cap": None, "knobs": None, "argform": "int", "refused_first": None}
+SHRINK_SIMPLE = {"write_cap": None, "knobs": None, "argform": "int", "refused_first": None, "seqform": "list"}
+SEQFORMS = ["list", "list", "list", "tuple", "ndarray", "zip", "generator", "map"]
 FCH1, FOFF = 1500.0, -0.5
 BANDS = [(1500.0, -0.5), (1581.804688, -0.390625), (1400.1, 0.3)]  # float32-exact and not
 
@@ -104,7 +105,8 @@ def generate(rng, tier) -> dict:
             # independent objects from then on
             ops.insert(rng.randint(0, len(ops)), {"op": "derive", "how": rng.choice(["evolve", "copy", "ctor", "deepcopy"]),
                                                   "threshold": rng.choice([3.0, 2.0, 5.0, 1.5]), "sub": [one_op() for _ in range(rng.randint(1, 2))]})
-        return {"kind": "mask", "nchans": nchans, "band": list(band), "threshold": rng.choice([3.0, 2.0, 5.0, 1.5]), "stats": stats, "family": fam, "ops": ops, "faults": []}
+        return {"kind": "mask", "nchans": nchans, "band": list(band), "threshold": rng.choice([3.0, 2.0, 5.0, 1.5]), "stats": stats, "family": fam, "ops": ops, "faults": [],
+                "seqform": rng.choice(SEQFORMS)}
     nbits = rng.choice([1, 2, 4, 8, 8, 32])
     nchans = rng.choice([c for c in (2, 4, 8, 12, 16) if (c * nbits) % 8 == 0])
     nfiles = rng.choice([1, 1, 2])
@@ -131,7 +133,8 @@ def generate(rng, tier) -> dict:
     sc = {"kind": "clean", "files": spec, "start": start, "nsamps": nsamps, "method": rng.choice(["mad", "iqrm"]),
           "threshold": rng.choice([3.0, 2.0, 1.5]), "ranges": gen_ranges(rng, nchans, band), "fn": rng.choice([None, None, "every3", "first", "last", "none"]),
           "mask_value": rng.choice([None, 0, top, rng.randint(0, top)] + ([-1.5, 2.75, -100.0] if nbits == 32 else [])),
-          "ops": [{"gulp": max(1, rng.choice([1, 2, 3, rng.randint(1, ns), ns, ns + 2, max(1, ns // 3)]))} for _ in range(2)], "faults": []}
+          "ops": [{"gulp": max(1, rng.choice([1, 2, 3, rng.randint(1, ns), ns, ns + 2, max(1, ns // 3)]))} for _ in range(2)], "faults": [],
+          "seqform": rng.choice(SEQFORMS)}
     if spec["mode"] == "bits":
         sc["mask_value"] = rng.choice([0, 7.5, -1.5])
         sc["ranges"] = sc["ranges"] or gen_ranges(rng, nchans, band) or [[band[0] - 1, band[0] + 1]]
@@ -169,6 +172,31 @@ def fixup(sc):
 
 def nontrivial(sc, ctx) -> bool:
     return ctx.probes.get("compared-clean", 0) > 0 or (sc["kind"] == "mask" and len(sc["ops"]) >= 2)
+
+
+def ranges_as(ranges, form, ctx=None, freqs32=None):
+    """The frequency ranges in one of the forms a caller has them in: a list of pairs (the annotated form), a tuple, an
+    (n, 2) array, or a one-shot iterable (zip(lows, highs), a generator expression, map) - "an iterable of (low, high)"."""
+    pairs = [tuple(r) for r in ranges]
+    form = form or "list"
+    if form == "ndarray" and (freqs32 is None or any(np.any(np.abs(np.asarray(freqs32, dtype=np.float64) - e) < 1e-3) for p in pairs for e in p)):
+        # an end ON a channel centre is decided at the precision the comparison happens in: Python floats are compared at the
+        # float32 precision of the library's centres, float64 array elements are not - the representation would decide, so
+        # such ranges keep the annotated form
+        form = "list"
+    if ctx is not None and form != "list":
+        ctx.probe("ranges-given-as:" + form)
+    if form == "tuple":
+        return tuple(pairs)
+    if form == "ndarray":
+        return np.array(pairs, dtype=np.float64).reshape(len(pairs), 2)
+    if form == "zip":
+        return zip([p[0] for p in pairs], [p[1] for p in pairs])
+    if form == "generator":
+        return (p for p in pairs)
+    if form == "map":
+        return map(tuple, pairs)
+    return pairs
 
 
 # ------------------------------------------------------------------ models
@@ -317,7 +345,7 @@ def exec_mask(sc, ctx) -> None:
             for sub in op["sub"]:
                 if sub["op"] == "apply_mask":
                     w = model_user(freqs32, sub["ranges"], ctx, band)
-                    d.apply_mask([tuple(r) for r in sub["ranges"]])
+                    d.apply_mask(ranges_as(sub["ranges"], sc.get("seqform"), ctx, freqs32))
                     mod["user"] = w
                 elif sub["op"] == "apply_method":
                     w = model_stats([st["var"], st["skew"], st["kurt"]], sub["method"], thr2)
@@ -339,7 +367,7 @@ def exec_mask(sc, ctx) -> None:
             continue
         if op["op"] == "apply_mask":
             want = model_user(freqs32, op["ranges"], ctx, band)
-            m.apply_mask([tuple(r) for r in op["ranges"]])
+            m.apply_mask(ranges_as(op["ranges"], sc.get("seqform"), ctx, freqs32))
             last["user"] = want
         elif op["op"] == "apply_method":
             want = model_stats([st["var"], st["skew"], st["kurt"]], op["method"], thr)
@@ -434,7 +462,7 @@ def exec_clean(sc, ctx) -> None:
                     ctx.observations["refused-first:" + type(e).__name__] += 1
                 ctx.probe("object-used-again-after-a-call-it-refused")
             try:
-                out, rm = reader.clean_rfi(method=sc["method"], threshold=thr, freq_mask=[tuple(r) for r in sc["ranges"]] or None,
+                out, rm = reader.clean_rfi(method=sc["method"], threshold=thr, freq_mask=(ranges_as(sc["ranges"], sc.get("seqform"), ctx, np.asarray(reader.header.chan_freqs, dtype=np.float32)) if sc["ranges"] else None),
                                            custom_funcn=custom_fn(sc["fn"]) if sc["fn"] else None, mask_value=sc["mask_value"],
                                            outfile_name=os.path.join(ctx.root, f"clean{i}.fil"), gulp=nint(gulp), start=nint(start), nsamps=nint(nsamps), quiet=True)
             except SimLivelock as e:
